@@ -626,6 +626,10 @@ pub struct Config {
     /// C14/C15 only: no cap on locked pages, lengths above the mmap threshold also for locked regions
     #[serde(default)]
     pub big: bool,
+    /// C15 only: the process runs under mlockall(MCL_CURRENT | MCL_FUTURE), as hardened
+    /// daemons do — madvise-style discards are refused on locked pages
+    #[serde(default)]
+    pub mlockall: bool,
 }
 
 pub const ARRAY_LENS: [usize; 10] = [0, 1, 16, 32, 64, 4095, 4096, 4097, 8192, 8193];
@@ -787,6 +791,24 @@ fn nonzero_fill(fill: u64) -> u64 {
     fill * 4 + 1
 }
 
+/// The caller's secret for a Write event. Mostly bytes without a single zero;
+/// one fill in five has a run of zero bytes at the start of the buffer and of
+/// every page (zero padding / zero header fields followed by secret data) —
+/// zeros are never evidence of anything, the non-zero rest still is.
+fn secret_pattern(fill: u64, n: usize, page: usize) -> Vec<u8> {
+    let mut v = pattern(nonzero_fill(fill), n);
+    if fill % 5 == 0 {
+        let run = [16usize, 32, 64, 17][(fill / 5 % 4) as usize];
+        let mut off = 0;
+        while off < n {
+            let end = (off + run).min(n);
+            v[off..end].fill(0);
+            off += page;
+        }
+    }
+    v
+}
+
 impl MemWorld {
     fn want_rights(p: PM) -> Rights {
         match p {
@@ -829,6 +851,9 @@ impl MemWorld {
 
     /// All C14 invariants for every live region + the process, against the kernel's view.
     fn check_all(&mut self, out: &mut Out, evkind: &str, subject: Option<usize>) {
+        if self.cfg.mlockall {
+            return; // everything is locked by design in this configuration; only C15's observer judges
+        }
         let page = self.page;
         let mut vmas = std::mem::take(&mut self.vmas);
         let mut scratch = std::mem::take(&mut self.scratch);
@@ -1116,7 +1141,8 @@ impl World for MemWorld {
         let rseed = rng.next_u64();
         let walk_len = 8 + rng.usize_below(23);
         let big = prop != "C19" && plan == PlanCfg::None && rng.chance(1, 10);
-        Config { prop: prop.to_string(), rseed, plan, walk_len, base_walk: base, bias: prop.to_string(), big }
+        let mlockall = prop == "C15" && plan == PlanCfg::None && !big && rng.chance(1, 12);
+        Config { prop: prop.to_string(), rseed, plan, walk_len, base_walk: base, bias: prop.to_string(), big, mlockall }
     }
 
     fn new(cfg: &Config) -> Self {
@@ -1135,6 +1161,11 @@ impl World for MemWorld {
             }
         })));
         let page = shim::st().page;
+        if cfg.mlockall {
+            unsafe {
+                libc::mlockall(libc::MCL_CURRENT | libc::MCL_FUTURE);
+            }
+        }
         MemWorld { cfg: cfg.clone(), slots: (0..SLOTS).map(|_| None).collect(), allocs: vec![None, None], page, scratch: Vec::with_capacity(1 << 16), vmas: Vec::with_capacity(256), n_events: 0, finished: false, lock_requests_seen: 0, refusals_seen: 0, ok: true, last_hist: String::new() }
     }
 
@@ -1295,7 +1326,7 @@ impl World for MemWorld {
                 subject = Some(slot);
                 path_hint = "ctor";
                 let n = array.unwrap_or(*len);
-                let src = pattern(nonzero_fill(*fill), n);
+                let src = secret_pattern(*fill, n, 4096);
                 shim::arm();
                 let r = guarded(|| construct_dyn(*ctor, *array, &src));
                 shim::disarm();
@@ -1513,7 +1544,7 @@ impl World for MemWorld {
                 };
                 let n = reg.len;
                 if let Some(v) = reg.h.as_mut().unwrap().view_mut() {
-                    let pat = pattern(nonzero_fill(*fill), n);
+                    let pat = secret_pattern(*fill, n, 4096);
                     v.copy_from_slice(&pat);
                     reg.contents = pat;
                     out.op();
@@ -1654,8 +1685,13 @@ impl World for MemWorld {
         let mut vmas = std::mem::take(&mut self.vmas);
         let mut scratch = std::mem::take(&mut self.scratch);
         let hist_class = self.last_hist.clone();
+        if self.cfg.mlockall {
+            unsafe {
+                libc::munlockall();
+            }
+        }
         if let Some(lck) = shim::vmlck(&mut scratch) {
-            if lck != 0 {
+            if lck != 0 && !self.cfg.mlockall {
                 out.violate("C14", "c14.residual_lock", site(&[("history", &hist_class)]), format!("after the last handle was dropped VmLck is {} bytes (history of the last region(s): {})", lck, hist_class));
                 if self.refusals_seen > 0 {
                     out.violate("C19", "c19.residual", site(&[("event", "end"), ("what", "vmlck")]), format!("after a refused lock and all drops, VmLck is {} bytes", lck));
@@ -1699,6 +1735,12 @@ impl World for MemWorld {
         }
         if bad_lock > 0 {
             out.violate("C14", "c14.residual_lock", site(&[("history", &hist_class)]), format!("after the last handle was dropped {} pages of released allocations are still VM_LOCKED", bad_lock));
+        }
+        if self.cfg.mlockall {
+            unsafe {
+                libc::munlockall();
+            }
+            out.probe("env.mlockall_run");
         }
         // make the process clean for the next run whatever happened
         for b in shim::all_blocks() {
@@ -1785,6 +1827,11 @@ impl Drop for MemWorld {
             }
         }
         let _ = shim::take_releases();
+        if self.cfg.mlockall {
+            unsafe {
+                libc::munlockall();
+            }
+        }
         dryoc::rng::verif::set_source(None);
     }
 }
